@@ -278,6 +278,12 @@ def f_not(f):
             return ("cmp", "<=", a, b)
         if op == ">=":
             return ("cmp", "<", a, b)
+    # De Morgan: negations are pushed down to the atoms, so that `if (!a || !b) <skip> else <do>` and
+    # `if (a && b) <do>` give <do> the same guard
+    if f[0] == "or":
+        return f_and(*[f_not(x) for x in f[1:]])
+    if f[0] == "and":
+        return f_or(*[f_not(x) for x in f[1:]])
     return ("not", f)
 
 
@@ -477,6 +483,29 @@ def sum_terms(e, env=None, depth=0):
         return (0, [cond(e["e"], env)])
     if e.get("t") == "bool":
         return (0, [cond(e, env)])
+    if k == "Call" and (callee_qn(e) or "").split("<")[0] == "std::count" and len(e.get("args", [])) == 3 and env is not None:
+        # std::count(std::begin(flags), std::end(flags), true) over a local array of presence tests is their sum
+        want = const_value(e["args"][2])
+
+        def arr(x):
+            x = unwrap_all_casts(x)
+            if isinstance(x, dict) and x.get("k") == "Call" and (callee_qn(x) or "").split("<")[0] in ("std::begin", "std::end", "std::cbegin", "std::cend") and x.get("args"):
+                a0 = unwrap_all_casts(unwrap(x["args"][0]))
+                if isinstance(a0, dict) and a0.get("k") == "InitList":
+                    return a0          # the array's initialiser was substituted for the array
+                p_ = path(x["args"][0])
+                d_ = env.definition(p_) if p_ is not None else None
+                return unwrap(d_) if d_ is not None else None
+            return None
+        da, db = arr(e["args"][0]), arr(e["args"][1])
+        if want in (1, True, 0, False) and isinstance(da, dict) and isinstance(db, dict) and show(da) == show(db) and \
+                [show(x) for x in da.get("c", [])] == [show(x) for x in db.get("c", [])]:
+            d = da
+            if isinstance(d, dict) and d.get("k") == "InitList" and all(isinstance(x, dict) and x.get("t") == "bool" for x in d.get("c", [])):
+                inds = [cond(x, env) for x in d["c"]]
+                if want in (0, False):
+                    inds = [f_not(i) for i in inds]
+                return (0, inds)
     if k == "Ref" and env is not None:
         p = path(e)
         d = env.definition(p)
@@ -560,6 +589,33 @@ def cond(e, env=None):
         if e.get("t") == "bool" and fr != "bool":
             return nz_formula(e["e"], env)
         return cond(e["e"], env)
+    if k == "Bin" and e.get("op") in ("<", ">", "<=", ">="):
+        # max(a, b, ..) >= x  <=>  a >= x || b >= x ..   (and the three dual forms): the extremum of a list compared with a
+        # bound is the disjunction / conjunction of the element-wise comparisons
+        for side, other, flip in (("lhs", "rhs", False), ("rhs", "lhs", True)):
+            m = unwrap_all_casts(e[side])
+            if isinstance(m, dict) and m.get("k") == "Call" and (callee_qn(m) or "").split("<")[0] in ("std::max", "std::min"):
+                elems = []
+                for a in m.get("args", []):
+                    ua = unwrap_all_casts(unwrap(a))
+                    if isinstance(ua, dict) and ua.get("k") == "StdInitList":
+                        ua = unwrap_all_casts(ua.get("e"))
+                    if isinstance(ua, dict) and ua.get("k") == "InitList":
+                        elems += [x for x in ua.get("c", []) if isinstance(x, dict)]
+                    else:
+                        elems.append(a)
+                if len(elems) >= 2 and len(m.get("args", [])) <= 2:
+                    op = e["op"]
+                    if flip:
+                        op = {"<": ">", ">": "<", "<=": ">=", ">=": "<="}[op]     # extremum OP other
+                    is_max = (callee_qn(m) or "").split("<")[0] == "std::max"
+                    parts = []
+                    for el in elems:
+                        n2 = {"k": "Bin", "op": op, "t": "bool", "l": e.get("l"), "lhs": el, "rhs": e[other]}
+                        parts.append(cond(n2, env))
+                    # max >=/> x : some element; max </<= x : every element; min the other way round
+                    some = (is_max and op in (">", ">=")) or ((not is_max) and op in ("<", "<="))
+                    return f_or(*parts) if some else f_and(*parts)
     if k == "Bin" and e.get("op") in ("==", "!=", "<", ">", "<=", ">="):
         op = e["op"]
         l, r = e["lhs"], e["rhs"]
